@@ -1,11 +1,11 @@
 CONSTANTS
   Owners = {1, 2}
-  Setters = {1, 2}
-  Obs = {9}
+  Setters = {1}
+  Obs = {8, 9}
   Val = {"a", "b"}
   FirstVal = "a"
-  MaxClock = 2
-  MaxUpd = 2
+  MaxClock = 4
+  MaxUpd = 3
   MaxSteps = 1000
   Dups = TRUE
 SPECIFICATION Spec
